@@ -10,14 +10,11 @@ import (
 
 type (
 	Locker    = sync.Locker
-	WaitGroup = sync.WaitGroup
-	Cond      = sync.Cond
 	Map       = sync.Map
 	Pool      = sync.Pool
 )
 
 var (
-	NewCond  = sync.NewCond
 	OnceFunc = sync.OnceFunc
 )
 
@@ -128,4 +125,88 @@ func (o *Once) Do(f func()) {
 		defer o.done.Store(true)
 		f()
 	}
+}
+
+// Cond is a scheduler-aware sync.Cond. A waiter registers itself before it
+// releases L (so no wake-up is lost), then blocks at a scheduler point that is
+// enabled once Signal or Broadcast has picked it; outside the scheduler it
+// blocks on a channel instead.
+type Cond struct {
+	L Locker
+
+	mu      sync.Mutex
+	waiters []*condWaiter
+}
+
+type condWaiter struct {
+	woken atomic.Bool
+	ch    chan struct{}
+}
+
+func NewCond(l Locker) *Cond { return &Cond{L: l} }
+
+func (c *Cond) Wait() {
+	w := &condWaiter{ch: make(chan struct{})}
+	c.mu.Lock()
+	c.waiters = append(c.waiters, w)
+	c.mu.Unlock()
+	c.L.Unlock()
+	if t := cur(); t != nil {
+		t.point("Cond.Wait", c, func() bool { return w.woken.Load() })
+	}
+	<-w.ch
+	c.L.Lock()
+}
+
+func (c *Cond) Signal() {
+	if t := cur(); t != nil {
+		t.point("Cond.Signal", c, nil)
+	}
+	c.mu.Lock()
+	if len(c.waiters) > 0 {
+		w := c.waiters[0]
+		c.waiters = c.waiters[1:]
+		w.woken.Store(true)
+		close(w.ch)
+	}
+	c.mu.Unlock()
+}
+
+func (c *Cond) Broadcast() {
+	if t := cur(); t != nil {
+		t.point("Cond.Broadcast", c, nil)
+	}
+	c.mu.Lock()
+	for _, w := range c.waiters {
+		w.woken.Store(true)
+		close(w.ch)
+	}
+	c.waiters = nil
+	c.mu.Unlock()
+}
+
+// WaitGroup is a scheduler-aware sync.WaitGroup: Wait is a scheduler point
+// enabled when the counter is zero.
+type WaitGroup struct {
+	n    atomic.Int64
+	real sync.WaitGroup
+}
+
+func (w *WaitGroup) Add(d int) {
+	if d < 0 {
+		w.n.Add(int64(d))
+		w.real.Add(d)
+		return
+	}
+	w.real.Add(d)
+	w.n.Add(int64(d))
+}
+
+func (w *WaitGroup) Done() { w.Add(-1) }
+
+func (w *WaitGroup) Wait() {
+	if t := cur(); t != nil {
+		t.point("WaitGroup.Wait", w, func() bool { return w.n.Load() <= 0 })
+	}
+	w.real.Wait()
 }
